@@ -8,7 +8,7 @@
 -/
 import WntrModel.Model.LinkRows
 import WntrModel.Model.Engines
-import WntrModel.Gen.RowsC02
+import WntrModel.Gen.SchemaBin
 open Wntr.Aml Wntr.LinkRows
 
 def parseRat (s : String) : Option Rat :=
@@ -68,7 +68,7 @@ def handle (line : String) : String :=
           { kind := kind, status := status, isolated := false, approx := approx, leaves := stdLeaves,
             pump := { A := A, B := B, C := C, a := a, b := b, c := c, d := d, qbar := qbar, hbar := hbar } }
         let env := envOf [f, hs, he] [k, mkl, setting, elevS, elevE, tcvR, power]
-        showF (eval floatOps env (linkRow Wntr.Gen.RowsC02.hw Wntr.Gen.RowsC02.pc Wntr.Gen.RowsC02.lit spec))
+        showF (eval floatOps env (linkRow Wntr.Engines.Gen.hw Wntr.Engines.Gen.pc Wntr.Engines.Gen.lit spec))
       | _, _ => "bad-op"
     | _, _, _ => "bad-op"
   | ["fire", dur, sc, r, kind, v] =>
